@@ -34,6 +34,8 @@ def _is_boolish(e, fd):
         return True
     if isinstance(e, ast.BoolOp):
         return all(_is_boolish(v, fd) for v in e.values)
+    if isinstance(e, ast.IfExp):
+        return _is_boolish(e.body, fd) and _is_boolish(e.orelse, fd)
     if isinstance(e, ast.Call):
         nm = call_name(e) or ''
         if nm.endswith('.write') or nm in ('add_to_set', 'bool', 'Boolean'):
@@ -142,6 +144,14 @@ def _verdict_use(call, stmt, fd, g):
     par = getattr(call, 'parent', None)
     # return <call>
     if isinstance(stmt, ast.Return) and stmt.value is call:
+        return 'ok'
+    # return True if <call> else False / return bool(<call>): the verdict itself, as a boolean
+    if isinstance(stmt, ast.Return) and isinstance(stmt.value, ast.IfExp) and stmt.value.test is call and is_true(stmt.value.body) and is_false(stmt.value.orelse):
+        return 'ok'
+    if isinstance(stmt, ast.Return) and isinstance(stmt.value, ast.IfExp) and isinstance(stmt.value.test, ast.UnaryOp) and isinstance(stmt.value.test.op, ast.Not) and stmt.value.test.operand is call \
+            and is_false(stmt.value.body) and is_true(stmt.value.orelse):
+        return 'ok'
+    if isinstance(stmt, ast.Return) and isinstance(stmt.value, ast.Call) and dotted(stmt.value.func) in ('bool', 'Boolean') and len(stmt.value.args) == 1 and stmt.value.args[0] is call:
         return 'ok'
     # x = <call>; x later returned on all paths / tested
     if isinstance(stmt, ast.Assign) and stmt.value is call and len(stmt.targets) == 1 and isinstance(stmt.targets[0], ast.Name):
@@ -391,6 +401,72 @@ def _len_before_after(e, fd):
     return adds[0].args[0]
 
 
+def _uniq_model(cx, port, p, mod, c):
+    """the DISTINCT writer evaluated on the record sequence A, B, A' (A' a different record object with the content of A), B' with an
+    abstract downstream writer, for every pattern of downstream verdicts: (problem text or None, number of scenarios); None when the
+    constructor or write() is outside the abstract interpreter"""
+    import json as _json
+    from .. import absexec as AX
+    ms = roles.methods(c)
+    init, wr = ms.get('__init__'), ms.get('write')
+    if init is None or wr is None:
+        return None
+    n = 0
+    seqs = [(['x', '1'], ['x', '2'], ['x', '1'], ['x', '2']), (['k'], ['k'], ['m'], ['k']), ([], ['', ''], [], [''])]
+    try:
+        for seq in seqs:
+            firsts = [i for i, r in enumerate(seq) if r not in seq[:i]]
+            for refuse_at in [None] + list(range(len(firsts))):
+                selfv, sub = AX.Abs('Self'), AX.Abs('Sub')
+                recs = [list(r) for r in seq]
+                forwarded = []
+
+                def on_call(ex, node, fname, recv, args):
+                    short = node.func.attr if isinstance(node.func, ast.Attribute) else fname
+                    if recv is sub and short == 'write':
+                        forwarded.append(args[0] if len(args) == 1 else None)
+                        return not (refuse_at is not None and len(forwarded) - 1 == refuse_at)
+                    if fname == 'JSON.stringify' and len(args) == 1 and isinstance(args[0], (list, tuple)) and all(isinstance(x, str) for x in args[0]):
+                        return _json.dumps(list(args[0]))
+                    return AX.NOT_HANDLED
+                ex = AX.Explorer(p, mod, on_call=on_call, max_choices=1)
+                ex.cls = c.name
+                ex._script, ex._pos, ex.steps, ex.depth = [], 0, 0, 0
+                ex.run = AX.Run()
+                extra = [AX.Abs('Arg%d' % i_) for i_ in range(len(init.args.args) - 2)]
+                ex.call_fd(init, [selfv, sub] + extra)
+                n += 1
+                want_fw = []
+                for i, r in enumerate(recs):
+                    is_first = i in firsts
+                    before = len(forwarded)
+                    got = ex.call_fd(wr, [selfv, r])
+                    if isinstance(got, AX.Abs):
+                        return None
+                    what = 'write() of record {} of the sequence {}'.format(i + 1, [','.join(x) for x in seq])
+                    if r != list(seq[i]):
+                        return 'DISTINCT modifies the record it is given ({})'.format(what), n
+                    if is_first:
+                        if len(forwarded) != before + 1 or forwarded[-1] is not r:
+                            return '{}: a first occurrence is not forwarded (unchanged, once) to the next writer'.format(what), n
+                        refused = refuse_at is not None and len(forwarded) - 1 == refuse_at
+                        if bool(got) != (not refused) or not isinstance(got, bool):
+                            return '{}: the next writer {} the record but DISTINCT returns {!r}'.format(what, 'refused' if refused else 'accepted', got), n
+                        if refused:
+                            break
+                    else:
+                        if len(forwarded) != before:
+                            return '{}: a record whose content was already seen is forwarded again'.format(what), n
+                        if got is not True:
+                            return '{}: a repeated record makes write() return {!r} instead of True (duplicates are skipped without stopping the query)'.format(what, got), n
+    except (Undecided, AX.Cut, AX._NeedChoice, AX.Raised, KeyError, IndexError, TypeError, AttributeError) as e_:
+        import os
+        if os.environ.get('RBQL_VERIF_DEBUG'):
+            print('uniq model gave up:', type(e_).__name__, e_)
+        return None
+    return None if n == 0 else (None, n)
+
+
 def rule_wr_uniq(cx, rep, port):
     p, mod, chain, sinks = _roles(cx, port)
     uniq = [c for c in chain if 'seen' in roles.self_attrs_assigned(roles.methods(c)['__init__'])]
@@ -398,6 +474,15 @@ def rule_wr_uniq(cx, rep, port):
         raise Undecided('DISTINCT writer (chain writer with a `seen` set) not found', (p.files[mod], 0))
     c = uniq[0]
     fd = roles.methods(c)['write']
+    mres = _uniq_model(cx, port, p, mod, c)
+    if mres is not None:
+        rep.decide(mres[0] is None, _key(c, 'write'), fd, 'forwards exactly the first occurrence of each record content and passes the downstream verdict on; repeated records return True ({} scenarios evaluated)'.format(mres[1]), mres[0] or '')
+        return
+    with rep.as_fallback('UniqWriter is outside the abstract interpreter'):
+        _rule_wr_uniq_shape(cx, rep, port, p, mod, c, fd)
+
+
+def _rule_wr_uniq_shape(cx, rep, port, p, mod, c, fd):
     rec = fd.args.args[1].arg
     g = cfgmod.CFG(fd)
     wrs = [n for n in g.nodes if n.kind in ('stmt', 'test') and cfgmod.node_contains(n, lambda x: isinstance(x, ast.Call) and call_name(x) == 'self.subwriter.write')]
